@@ -569,8 +569,14 @@ class Device(object):
         s.host_closed = True
         if not s.dev_closed:
             # host-initiated close: cancel what is pending and answer with CLSE (adbd does)
+            keep = None
+            if self.spec.get('inflight_on_close') and s.outq and s.outq[0].cmd == W.A_WRTE and not s.await_okay and s.outq[0].ready <= now:
+                # that WRITE left before the host's CLOSE arrived: it is already on the wire
+                if self.tape.draw('device', 2, weights=[1, 2]) == 1:
+                    keep = s.outq[0]
+                    self.probe('wrte_in_flight_at_host_close')
             for p in list(s.outq):
-                if p.cmd == W.A_WRTE:
+                if p.cmd == W.A_WRTE and p is not keep:
                     s.outq.remove(p)
             s.await_okay = False
             self.q_close(s, now, zero=self.clse_zero)
@@ -580,6 +586,8 @@ class Device(object):
 
     # -- services ------------------------------------------------------------------------
     def _make_service(self, s, dest):
+        if any(dest.startswith(p.encode()) for p in self.spec.get('refuse', ())):
+            return None      # service not supported on this device: CLSE(0, local)
         if dest.startswith(b'shell:') or dest.startswith(b'exec:'):
             return ShellService(self, s, dest.split(b':', 1)[1])
         if dest == b'root:':
@@ -869,7 +877,21 @@ class SyncService(object):
         # The OKAY for this host WRITE and anything the service said in reaction to it race
         # (the ack is sent when the service has taken the data). Order from the scenario.
         okay = Pkt(W.A_OKAY, s.remote, s.local, kind='ack')
-        if produced and any(p.kind == 'fail' for p in produced) and dev.spec.get('fail_before_okay'):
+        rbo = int(dev.spec.get('reply_before_okay', 0) or 0)
+        if produced and rbo > 0 and not any(p.kind == 'fail' for p in produced):
+            # the service's reply overtakes the ack of the request: up to `rbo` reply WRITEs go out before the OKAY
+            for p in produced:
+                s.outq.remove(p)
+            s.last_ready = max([now] + [q.ready for q in s.outq])
+            for p in produced[:rbo]:
+                dev._q(s, p, now)
+            dev._q(s, okay, now)
+            for p in produced[rbo:]:
+                dev._q(s, p, now)
+            dev.probe('reply_before_okay')
+            if min(rbo, len(produced)) >= 2:
+                dev.probe('two_replies_before_okay')
+        elif produced and any(p.kind == 'fail' for p in produced) and dev.spec.get('fail_before_okay'):
             # FAIL first, then the OKAY
             for p in produced:
                 s.outq.remove(p)
